@@ -80,6 +80,12 @@ def build_catalog(rng):
     good("texttag", "<%text>${ a\n</%text>")
     good("pct", "%% lit\n", ls=True)
     tail("t.txt", " tail " + W + "\n")
+    # ---- boundaries: exactly 0 / 1 / 2 / 3 / many characters before the construct on its line (first line, a later line,
+    # after a continuation) and the construct ending at the last / second-to-last character, with and without a final terminator
+    for eid, text in (("pad1", "x"), ("pad2", "xy"), ("pad3", "xyz"), ("pad-nl", "q\n"), ("pad-cont0", "ab \\\n"), ("pad-cont1", "ab \\\nx")):
+        E.append(_entry(eid, text, "good-b"))
+    for eid, text in (("t.1", "z"), ("t.nl", "\n"), ("t.1nl", "z\n")):
+        E.append(_entry(eid, text, "tail-b"))
 
     # ---- Python-level faults: F marks the offending Python line, C where the Python string begins
     bad = "= ="
@@ -596,6 +602,15 @@ def check(run):
     if resk.violated:
         run.spec_violation(resk)
     n_brk = take(resk, "main")
+    bfaults = [i + 1 for i, e in enumerate(E) if e["id"] in (
+        "py.expr", "py.block1", "py.modblock", "py.defsig", "py.callexpr", "py.attrexpr", "st.unknown-tag", "st.unterminated-expr", "st.unterminated-block",
+        "st.missing-attr.include", "st.orphan-close", "st.unclosed-text", "st.illegal-attr.def", "st.def-without-parens")]
+    resb = run.tlc("MC_Lines", cfg(idx(E, "good-b"), bfaults, idx(E, "tail-b"), 2, nlk, inv), name="mc-boundaries", workers=workers, extra_files=files, env=env)
+    if resb.violated:
+        run.spec_violation(resb)
+    n_bnd = take(resb, "bnd")
+    if n_bnd < 1000 or not any(c["group"] == "bnd" and c["bline"] == 1 and c["bcol"] == 2 for c in cases):
+        raise MachineryError("boundary instance: no construct at line 1 column 2 among %d cases" % n_bnd)
     alpha = idx(E, "fault-alpha")
     resa = run.tlc("MC_Lines", cfg(few[:2], alpha, tails, 1, ["lf"], inv), name="mc-fault-alphabet", workers=workers, extra_files=files, env=env)
     if resa.violated:
@@ -781,6 +796,8 @@ def check(run):
         "options: preprocessor identity / deleting 2 lines / inserting 2 lines / a list of both, bytes with a magic-comment first line, BOM, "
         "strict_undefined, enable_loop=False, imports, future_imports, default_filters: every fault entry x every option each run (<=1 preceding construct "
         "of 2 kinds); positions are positions in the text the lexer lexes, and exc.source indexed by exc.lineno must be the faulty line",
+        "boundaries: 0 / 1 / 2 / 3 / many characters before the construct on its line x first line / later line / after a continuation x LF/CRLF, and the "
+        "construct ending at the last / second-to-last character with and without a final terminator, for 14 inline fault entries; the column must be exact",
         "fault alphabet: 20 Python-carrying sites x 13 classes of faulty text (reserved words alone, soft-keyword statement, closing bracket, stray "
         "operator, unterminated string, invalid token, keyword inside an expression / as argument, assignment to a keyword) + empty conditions, bad "
         "indentation, unclosed bracket; all on one line; an empty ${} or expr=\" \" compiles and renders nothing and is not counted as a fault; with a "
